@@ -18,6 +18,7 @@ type l1Action struct {
 	Mode string    `json:"mode,omitempty"`
 	Call *sim.Call `json:"call,omitempty"`
 	Tx   *sim.Tx   `json:"tx,omitempty"`
+	N    int       `json:"n,omitempty"` // backlog: number of plain operations before the closing transaction
 }
 
 func (a l1Action) String() string {
@@ -28,6 +29,8 @@ func (a l1Action) String() string {
 		return fmt.Sprintf("c%d.k%d.%s", a.C, a.Key, a.Call)
 	case "tx":
 		return fmt.Sprintf("c%d.k%d.tx(fail_at=%d,%d calls)", a.C, a.Key, a.Tx.FailAt, len(a.Tx.Calls))
+	case "backlog":
+		return fmt.Sprintf("c%d.k%d.backlog(%d ops + tx of %d)", a.C, a.Key, a.N, len(a.Tx.Calls))
 	}
 	return fmt.Sprintf("%s(c%d)", a.K, a.C)
 }
@@ -82,6 +85,16 @@ func genL1Action(rt *rapid.T, w *l1World, maxClients int) l1Action {
 			return l1Action{K: "sync", C: ci}
 		}
 		ki := rapid.SampledFrom(names).Draw(rt, "lkey")
+		if x == 61 && c.dts[w.keys[ki].Name].entered && rapid.Bool().Draw(rt, "backlog") {
+			// a long offline period: hundreds or thousands of operations pile up unpushed, the last ones inside
+			// a transaction (sizes around the powers of two where buffers and batch limits tend to sit)
+			n := rapid.SampledFrom([]int{250, 1019, 1030, 2045}).Draw(rt, "backlog_n")
+			tx := sim.Tx{Tag: "backlog", FailAt: -1}
+			for i, m := 0, rapid.IntRange(3, 8).Draw(rt, "backlog_tx"); i < m; i++ {
+				tx.Calls = append(tx.Calls, c06CheapCall(w.keys[ki].Kind, 5000+i))
+			}
+			return l1Action{K: "backlog", C: ci, Key: ki, N: n, Tx: &tx}
+		}
 		if x >= 62 {
 			// a transaction, half of them failing (rolled back: state and identifiers restored on a
 			// client that may already have applied pulled operations)
@@ -159,6 +172,18 @@ func (w *l1World) applyL1(a l1Action) error {
 		} else if !d.entered {
 			w.labels["local-op-before-first-sync(subscriber)"] = true
 		}
+	case "backlog":
+		c := w.clients[a.C]
+		d := c.dts[w.keys[a.Key].Name]
+		for i := 0; i < a.N; i++ {
+			if res := sim.Exec(d.key.Kind, d.dt, c06CheapCall(d.key.Kind, i)); res.Panic != nil {
+				return fmt.Errorf("local call panicked: %v", res.Panic)
+			}
+		}
+		if _, txErr, pan := sim.ExecTx(d.key.Kind, d.dt, *a.Tx); pan != nil || txErr != nil {
+			return fmt.Errorf("the transaction that closes a backlog of %d operations failed: err=%v panic=%v", a.N, txErr, pan)
+		}
+		w.labels[fmt.Sprintf("backlog>=%d", a.N/1000*1000)] = true
 	case "tx":
 		c := w.clients[a.C]
 		d := c.dts[w.keys[a.Key].Name]
